@@ -117,8 +117,8 @@ def checkFrom (h : List Ev) (w : Window) : List (Op × Obs) → Option String
     if o = .ok then checkFrom h { w with isOpen := true, snapPuts := w.hotPuts, hotPuts := [] } tr
     else checkFrom h w tr
   | (.snapTo p, _) :: tr => checkFrom h (w.snapTo p) tr
-  | (.crash false, _) :: tr => checkFrom h w.crash tr
-  | (.compactCrash .., _) :: tr => checkFrom h w.crash tr
+  | (.crash false, o) :: tr => if o = .ok then checkFrom h w.crash tr else some "reopen-failed:"
+  | (.compactCrash .., o) :: tr => if o = .ok then checkFrom h w.crash tr else some "reopen-failed:"
   | (op, _) :: tr => if inScope op then checkFrom h w tr else some "op-outside-C03:"
 
 def check (tr : List (Op × Obs)) : Option String := checkFrom [] {} tr
